@@ -10,6 +10,8 @@ for spec in sys.argv[2:]:
     sd, checks = spec.split(":")
     patch = os.path.join(sd, "patch.diff") if os.path.exists(os.path.join(sd, "patch.diff")) else sd
     name = os.path.basename(os.path.dirname(patch)) + "/" + os.path.basename(patch) if patch == sd else os.path.basename(sd)
+    if "_incoming3" in patch:
+        name = "r3:" + name
     wt = tempfile.mkdtemp(prefix="mutwt.", dir="/tmp")
     subprocess.run(["git", "-C", "/repo", "worktree", "add", "--detach", "-q", wt, "HEAD"], check=False)
     ok = subprocess.run(["git", "-C", wt, "apply", patch]).returncode == 0
